@@ -160,19 +160,25 @@ class Subroutine(Scope):
         doc_str = self.get_documentation()
         if doc_str is not None:
             doc_strs.append(doc_str)
-        if long:
-            has_args = True
-            for i, arg_obj in enumerate(self.arg_objs):
-                if arg_obj is None or i == drop_arg:
-                    continue
-                arg, doc_str = arg_obj.get_hover()
-                hover_array.append(arg)
-                if doc_str:  # If doc_str is not None or ""
-                    if has_args:
-                        doc_strs.append("\n**Parameters:**  ")
-                        has_args = False
-                    # stripping prevents multiple \n characters from the parser
-                    doc_strs.append(f"`{arg_obj.name}` {doc_str}".strip())
+        # A dummy procedure may have this very procedure (or one that leads back
+        # to it) as its interface: expand the arguments only at the outermost level
+        if long and not getattr(self, "_expanding_args", False):
+            self._expanding_args = True
+            try:
+                has_args = True
+                for i, arg_obj in enumerate(self.arg_objs):
+                    if arg_obj is None or i == drop_arg:
+                        continue
+                    arg, doc_str = arg_obj.get_hover()
+                    hover_array.append(arg)
+                    if doc_str:  # If doc_str is not None or ""
+                        if has_args:
+                            doc_strs.append("\n**Parameters:**  ")
+                            has_args = False
+                        # stripping prevents multiple \n characters from the parser
+                        doc_strs.append(f"`{arg_obj.name}` {doc_str}".strip())
+            finally:
+                self._expanding_args = False
         return hover_array, doc_strs
 
     def get_signature(self, drop_arg=-1):
